@@ -1,18 +1,20 @@
 #!/bin/sh
 # usage: bin/seedcheck.sh <patch.diff> <Cxx> [<Cyy> ...] [--tier quick|thorough]
-# applies a seeded change to /repo, runs the named checks, restores /repo; prints one line per check.
+# applies a seeded change to a scratch worktree of /repo's HEAD (never to /repo itself), points the machinery at it
+# (VERIF_REPO), runs the named checks, removes the worktree; prints one line per check.  Evidence of these runs goes to
+# /tmp, never to /verif/evidence.
 patch="$1"; shift
 tier=quick
 props=""
 while [ $# -gt 0 ]; do
   case "$1" in --tier) tier="$2"; shift 2;; *) props="$props $1"; shift;; esac
 done
-cd /repo || exit 2
-if [ -n "$(git status --porcelain -- hta)" ]; then echo "refusing: /repo/hta has local changes" >&2; exit 2; fi
-trap 'git -C /repo checkout -- . >/dev/null 2>&1' EXIT INT TERM
-git apply "$patch" || { echo "patch does not apply" >&2; exit 2; }
+WT=$(mktemp -d /tmp/seedwt.XXXXXX); rmdir $WT
+git -C /repo worktree add -q --detach $WT HEAD || exit 2
+trap 'git -C /repo worktree remove --force $WT >/dev/null 2>&1; git -C /repo worktree prune' EXIT INT TERM
+git -C $WT apply "$patch" || { echo "patch does not apply" >&2; exit 2; }
 cd /verif
-export VERIF_EVIDENCE_DIR=/tmp/verif-seed-evidence
+export VERIF_EVIDENCE_DIR=/tmp/verif-seed-evidence VERIF_REPO=$WT
 for p in $props; do
   out=$(./vcheck "$p" --tier "$tier" 2>&1); rc=$?
   v=$(echo "$out" | grep -c '^VIOLATION')
